@@ -187,7 +187,9 @@ def metaCase : P Verdict := do
   let hash ← P.bool
   let tid ← P.bool
   let info ← P.nat
+  let pc ← P.bool     -- partial_cmp = Some(cmp) both ways and <, <=, >, >= agree with cmp
   let mut errs : List String := []
+  if !pc then errs := errs ++ ["C16: partial_cmp or a comparison operator disagrees with cmp on MetaType"]
   if cmp != eq then errs := errs ++ ["C16: Ord is not consistent with == on MetaType"]
   if !anti then errs := errs ++ ["C16: cmp is not antisymmetric"]
   if eq && !hash then errs := errs ++ ["C16: equal MetaTypes hash differently"]
@@ -213,6 +215,26 @@ def metaCase : P Verdict := do
     let mb := (typeInfo false b).map (Ty.map identity)
     if (ma == mb) != (info == 1) then return .diff "model type_info equality"
   return .ok (eq && a != b)
+
+/-- two distinct user types with the same `type_name` (struct Twin(u8) and struct Twin(u16, bool)), registered in one registry in
+    both orders: distinct identities get distinct ids and their own definitions (model: `C05.distinct_ids`, `one_entry_per_identity`) -/
+def twinsCase : P Verdict := do
+  let ia ← P.nat
+  let ib ← P.nat
+  let ia2 ← P.nat
+  let nBefore ← P.nat
+  let n ← P.nat
+  let fa ← P.nat
+  let fb ← P.nat
+  let eq ← P.bool
+  let mut errs : List String := []
+  if eq then errs := errs ++ ["C16: two distinct types compare equal as MetaTypes"]
+  if ia == ib then errs := errs ++ ["C05: two distinct type identities were given the same id"]
+  if ia2 != ia then errs := errs ++ ["C05: registering a type again returned a different id"]
+  -- Twin(u8), u8, Twin(u16, bool), u16, bool
+  if n != 5 || nBefore != 5 then errs := errs ++ [s!"C05: registry has {n} entries for 5 reachable type identities"]
+  if fa + fb != 3 || fa == fb then errs := errs ++ ["C02: an id does not resolve to the definition of the type it was handed out for"]
+  if errs.isEmpty then pure (.ok true) else pure (.specfail (" ;; ".intercalate errs))
 
 def lookupExpr (m : List (Nat × TyExpr)) (i : Nat) : Option TyExpr := (m.find? (fun p => p.1 == i)).map (·.2)
 
